@@ -76,15 +76,15 @@ func GetFuncNameFromExpr(expr Expression) (string, error) {
 	if !ok {
 		return "", NewSyntaxError(expr.GetPos(), "Not function call expression")
 	}
-	rfname, err := fc.Name.Execute(NewKVP(nil, nil), nil)
-	if err != nil {
-		return "", err
-	}
-	fname, ok := rfname.(string)
+	// A function name is a name: anything else is refused by the checker,
+	// and must not be executed to find out (ReturnType() is asked before
+	// the checker runs, and for a call nested in the name of a call nested
+	// in the name ... that takes exponential time)
+	nexpr, ok := fc.Name.(*NameExpr)
 	if !ok {
-		return "", NewSyntaxError(expr.GetPos(), "Invalid function name")
+		return "", NewSyntaxError(fc.Name.GetPos(), "Invalid function name")
 	}
-	return strings.ToLower(fname), nil
+	return strings.ToLower(nexpr.Data), nil
 }
 
 func GetScalarFunction(expr Expression) (*Function, error) {
